@@ -380,6 +380,27 @@ void fixComponentUnits(const ModelPtr &model, const ComponentPtr &component)
     }
 }
 
+using ImportSourceCopies = std::map<ImportSourcePtr, ImportSourcePtr>;
+
+void shareImportSourceCopy(const ImportedEntityConstPtr &original, const ImportedEntityPtr &copy, ImportSourceCopies &copies)
+{
+    // Entities that share an import source in the original share one in the copy.
+    if (original->isImport()) {
+        auto result = copies.emplace(original->importSource(), copy->importSource());
+        if (!result.second) {
+            copy->setImportSource(result.first->second);
+        }
+    }
+}
+
+void shareComponentImportSourceCopies(const ComponentEntityConstPtr &original, const ComponentEntityPtr &copy, ImportSourceCopies &copies)
+{
+    for (size_t index = 0; index < original->componentCount(); ++index) {
+        shareImportSourceCopy(original->component(index), copy->component(index), copies);
+        shareComponentImportSourceCopies(original->component(index), copy->component(index), copies);
+    }
+}
+
 ModelPtr Model::clone() const
 {
     auto m = create();
@@ -400,6 +421,12 @@ ModelPtr Model::clone() const
     for (size_t index = 0; index < m->componentCount(); ++index) {
         fixComponentUnits(m, m->component(index));
     }
+
+    ImportSourceCopies importSourceCopies;
+    for (size_t index = 0; index < pFunc()->mUnits.size(); ++index) {
+        shareImportSourceCopy(units(index), m->units(index), importSourceCopies);
+    }
+    shareComponentImportSourceCopies(shared_from_this(), m, importSourceCopies);
 
     // Generate equivalence map starting from the models components.
     EquivalenceMap map;
